@@ -19,11 +19,18 @@ structure Quiet (s s' : St) : Prop where
   rd : RdInv s → RdInv s'
   tenv : s'.tenv = s.tenv
   tok : ∀ g R, TOK g R s → TOK g R s'
+  rreg : s'.root.reg = s.root.reg
 
-theorem Quiet.refl (s : St) : Quiet s s := ⟨rfl, rfl, rfl, fun h => h, rfl, fun _ _ h => h⟩
+theorem Quiet.refl (s : St) : Quiet s s := ⟨rfl, rfl, rfl, fun h => h, rfl, fun _ _ h => h, rfl⟩
 theorem Quiet.trans {a b c : St} (h1 : Quiet a b) (h2 : Quiet b c) : Quiet a c :=
   ⟨by rw [h2.errors, h1.errors], by rw [h2.abs, h1.abs], by rw [h2.names, h1.names], fun h => h2.rd (h1.rd h),
-   by rw [h2.tenv, h1.tenv], fun g R h => h2.tok g R (h1.tok g R h)⟩
+   by rw [h2.tenv, h1.tenv], fun g R h => h2.tok g R (h1.tok g R h), by rw [h2.rreg, h1.rreg]⟩
+
+theorem Quiet.wle {s s' : St} (q : Quiet s s') (h : WLe s) : WLe s' := by
+  intro p hp
+  rw [q.tenv] at hp
+  rw [q.rreg]
+  exact h p hp
 
 /-- the reads invariant looks only at the counters of the live blocks and at the root's stack -/
 theorem rd_of_fields {s s' : St} (h : RdInv s) (hinner : ∀ b ∈ s'.inner, ∃ b' ∈ s.frames, b.reg = b'.reg)
@@ -42,7 +49,7 @@ theorem drel_same {g : Globals} {R : Ty} {s s' : St} {ss : SpecSt} (hr : DRel g 
     by rw [q.tenv, hv]; exact hr.scope.dk, by rw [q.tenv, q.names]; exact hr.scope.dn⟩,
    by rw [q.abs]; exact hr.out, by rw [q.abs]; exact hr.next,
    fun n hn => by rw [q.names]; exact hr.reg n (by rw [q.abs] at hn; exact hn), q.rd hr.rd, q.tok g R hr.tok,
-   by rw [hd]; exact hr.vinv, by rw [hd, q.names]; exact hr.vreg⟩
+   by rw [hd]; exact hr.vinv, by rw [hd, q.names]; exact hr.vreg, q.wle hr.wle⟩
 
 theorem drel_enter {g : Globals} {R : Ty} {s s' : St} {ss : SpecSt} (hr : DRel g R s ss) (q : Quiet s s') (hv : s'.vals = [] :: s.vals)
     (hd : s'.dts = .node [] [] [] :: s.dts) :
@@ -66,7 +73,8 @@ theorem drel_enter {g : Globals} {R : Ty} {s s' : St} {ss : SpecSt} (hr : DRel g
      simp only [List.mem_cons] at ht
      rcases ht with rfl | ht
      · cases hx
-     · exact hr.vreg t ht x hx⟩
+     · exact hr.vreg t ht x hx,
+   q.wle hr.wle⟩
 
 theorem dvals_tail {decls : List Name} {vs : List (List (Name × Value))} {ds : List (List (Name × Nat))}
     (h : DVals decls vs ds) : DVals decls vs.tail ds.tail := by
@@ -118,7 +126,8 @@ theorem drel_leave {g : Globals} {R : Ty} {s s' : St} {ss : SpecSt} (hr : DRel g
      simp only [closeDts, List.mem_cons] at ht
      rcases ht with rfl | ht
      · exact hr.vreg (.node v1 d1 c1) (by rw [hs]; simp) x hx
-     · exact hr.vreg t (by rw [hs]; simp [ht]) x hx⟩
+     · exact hr.vreg t (by rw [hs]; simp [ht]) x hx,
+   q.wle hr.wle⟩
 
 /-! ### The bookkeeping operations are quiet -/
 
@@ -133,7 +142,7 @@ theorem quiet_push (i : Instr) (hi : i.skipped) (s : St) : Quiet s (s.push i) :=
   ⟨rfl, by rw [abs_push, hi.1], rfl,
    fun h => rd_push_nowrite h i hi.2.2.1 (fun q hq => by rw [hi.2.1] at hq; cases hq),
    by rw [tenv_push, hi.2.2.2.1],
-   fun g R h => tok_push i h (by rw [hi.2.2.2.2]; intro b hb; cases hb)⟩
+   fun g R h => tok_push i h (by rw [hi.2.2.2.2]; intro b hb; cases hb), rfl⟩
 
 theorem rootn_pushVia (k : Nat) (i : Instr) (s : St) :
     (s.pushVia k i).root.context = s.root.context ++ [i] ∧ (s.pushVia k i).root.innerNames = s.root.innerNames := by
@@ -145,8 +154,12 @@ theorem quiet_pushVia (k : Nat) (i : Instr) (hi : i.skipped) (s : St) : Quiet s 
     unfold St.tenv
     rw [(rootn_pushVia k i s).1, List.foldl_append]
     exact hi.2.2.2.1 _
-  refine ⟨(pushVia_fields k i s).1, ?_, (rootn_pushVia k i s).2, ?_, htenv, ?_⟩
+  refine ⟨(pushVia_fields k i s).1, ?_, (rootn_pushVia k i s).2, ?_, htenv, ?_, ?_⟩
   rotate_left 2
+  rotate_left 1
+  · unfold St.pushVia St.push St.mapFrames St.mapCur
+    cases s.inner <;> rfl
+  rotate_right 1
   · intro g R h
     have hctx : (s.pushVia k i).root.context = (s.push i).root.context := (rootn_pushVia k i s).1
     exact tok_of_ctx hctx (tok_push i h (by rw [hi.2.2.2.2]; intro b hb; cases hb))
@@ -174,7 +187,7 @@ theorem quiet_probeLabel (stem : Name) (s : St) : Quiet s (s.probeLabel stem).2 
     intro b hb
     simp [St.probeLabel, St.mapFrames] at hb
     obtain ⟨b', hb', rfl⟩ := hb
-    exact ⟨b', mem_frames.mpr (Or.inl hb'), rfl⟩) rfl rfl, rfl, fun _ _ h => tok_of_ctx rfl h⟩
+    exact ⟨b', mem_frames.mpr (Or.inl hb'), rfl⟩) rfl rfl, rfl, fun _ _ h => tok_of_ctx rfl h, rfl⟩
 
 theorem quiet_enter (s : St) : Quiet s s.enter :=
   ⟨rfl, rfl, rfl, fun h => rd_of_fields h (by
@@ -182,7 +195,7 @@ theorem quiet_enter (s : St) : Quiet s s.enter :=
     simp [St.enter] at hb
     rcases hb with rfl | hb
     · exact ⟨s.cur, cur_mem_frames s, rfl⟩
-    · exact ⟨b, mem_frames.mpr (Or.inl hb), rfl⟩) rfl rfl, rfl, fun _ _ h => tok_of_ctx rfl h⟩
+    · exact ⟨b, mem_frames.mpr (Or.inl hb), rfl⟩) rfl rfl, rfl, fun _ _ h => tok_of_ctx rfl h, rfl⟩
 
 theorem quiet_leave (s : St) : Quiet s s.leave.2 :=
   ⟨leave_errors s, abs_of_ctx (root_leave_fields s).1, (root_leave_fields s).2.2.1,
@@ -190,7 +203,8 @@ theorem quiet_leave (s : St) : Quiet s s.leave.2 :=
     intro b hb
     obtain ⟨b', hb', _, _, _, _, hr, _⟩ := inner_leave s b hb
     exact ⟨b', mem_frames.mpr (Or.inl hb'), hr⟩) (root_leave_fields s).2.2.2.2.1 (root_leave_fields s).1,
-   tenv_of_ctx (root_leave_fields s).1, fun _ _ h => tok_of_ctx (root_leave_fields s).1 h⟩
+   tenv_of_ctx (root_leave_fields s).1, fun _ _ h => tok_of_ctx (root_leave_fields s).1 h,
+   (root_leave_fields s).2.2.2.2.1⟩
 
 theorem quiet_ifLabels (le : Option Name) (s : St) : Quiet s (ifLabels le s).2.2.2 := by
   unfold ifLabels
